@@ -438,7 +438,11 @@ def run(ctx: Ctx) -> int:
                         f"tsim.Circuit(text) = {str(got)!r} but the text denotes {('nothing (malformed)' if ref is None else repr(str(ref)))}",
                         s2s, sh)
     ctx.cov["constructor_outcomes"] = dict(outcomes)
-    ctx.sample({"text": curated[3], "circuit": str(tsim.Circuit(curated[3])._stim_circ)})
+    if accepted:
+        ctx.sample({"text": accepted[0][0], "circuit": str(accepted[0][1]._stim_circ)})
+
+    # ---- C15_expand on the implementation: the canonical shorthand forms expand to exactly the tagged instruction
+    _expand_forms(ctx, s2s, ppt, 120 if quick else 1200)
 
     # ---- late rejection really is loud: the simulator refuses the malformed tag
     for lit in ["1.2.3", ".", "-.", ".."]:
@@ -663,6 +667,43 @@ def _model_gate_names(ctx, stim):
         ctx.broken.append(f"correspondence:stim_gate_names differs from stim.gate_data(): {sorted(set(mine) ^ set(names))}")
 
 
+def _expand_forms(ctx, s2s, ppt, n):
+    """the statement of C15_expand_* evaluated on the running code: string-exact expansion and exact tag values"""
+    rng = ctx.rng
+    blanks = ["", "", " ", "  ", "\t", " \t "]
+    cases = [("T 0 1", "S[T] 0 1", None), ("T_DAG 2", "S_DAG[T] 2", None), ("T", "S[T]", None), ("T_DAG", "S_DAG[T]", None),
+             ("U3(0.3,0.24,0.49) 0", "I[U3(theta=0.3*pi, phi=0.24*pi, lambda=0.49*pi)] 0",
+              ("U3(theta=0.3*pi, phi=0.24*pi, lambda=0.49*pi)", "U3", ["0.3", "0.24", "0.49"]))]
+    for _ in range(n):
+        tail = rng.choice(["", " 0", " 0 1 2", " 3\n", "\t5", " 0 # plain comment", " 1\n    h 0"])
+        if rng.random() < 0.5:
+            ax, l = rng.choice("XYZ"), rng.choice(GOOD_LITS)
+            cases.append((f"R_{ax}({l}){tail}", f"I[R_{ax}(theta={l}*pi)]{tail}", (f"R_{ax}(theta={l}*pi)", f"R_{ax}", [l])))
+        else:
+            ls = [rng.choice(GOOD_LITS) for _ in range(3)]
+            w = [rng.choice(blanks) for _ in range(4)]
+            tag = f"U3(theta={ls[0]}*pi, phi={ls[1]}*pi, lambda={ls[2]}*pi)"
+            cases.append((f"U3({ls[0]}{w[0]},{w[1]}{ls[1]}{w[2]},{w[3]}{ls[2]}){tail}", f"I[{tag}]{tail}", (tag, "U3", ls)))
+    for text, want, tg in cases:
+        ctx.count(("expand", text), bucket="expand-forms")
+        got = s2s(text)
+        if got != want:
+            ctx.violation(f"expand:{text[:50]}", f"shorthand_to_stim({text!r}) = {got!r}, the shorthand denotes {want!r}",
+                          {"kind": "expand", "text": text, "want": want})
+            return
+        if tg:
+            tag, gate, lits = tg
+            params = dict(zip(("theta", "phi", "lambda"), [dec_value(l) for l in lits]))
+            try:
+                r = ppt(tag)
+            except Exception as e:
+                r = repr(e)
+            if r != (gate, params):
+                ctx.violation(f"expand-tag:{tag[:50]}", f"parse_parametric_tag({tag!r}) = {r!r}, intended {(gate, params)!r}",
+                              {"kind": "tag", "text": tag, "want": [gate, {k: str(v) for k, v in params.items()}]})
+                return
+
+
 def _rotation_semantics(ctx, tsim, n):
     import numpy as np
     lits = ["0.5", "-0.25", "+1", "5.", ".5", "00.5", "0.1234567890123456789", "0.00001", "-3.14159", "1000", ".0", "+007.2500"]
@@ -682,7 +723,12 @@ def _rotation_semantics(ctx, tsim, n):
             P = {"R_X": np.array([[0, 1], [1, 0]]), "R_Y": np.array([[0, -1j], [1j, 0]]), "R_Z": np.array([[1, 0], [0, -1]])}[kind]
             want = np.cos(a / 2) * np.eye(2) - 1j * np.sin(a / 2) * P
         ctx.count(("sem", text), bucket="rotation-semantics")
-        got = np.asarray(tsim.Circuit(text).to_matrix())
+        try:
+            got = np.asarray(tsim.Circuit(text).to_matrix())
+        except Exception as e:
+            ctx.violation(f"rotation-semantics:{kind}", f"{text!r} (a documented shorthand form) is rejected: {e!r}",
+                          {"kind": "sem", "text": text})
+            break
         k = np.argmax(np.abs(want))
         ph = got.flat[k] / want.flat[k]
         if abs(abs(ph) - 1) > 1e-5 or np.max(np.abs(got - ph * want)) > 1e-5:
@@ -701,6 +747,26 @@ def replay(ctx: Ctx, obj) -> int:
     if text is None:
         return 1
     kind = r.get("kind", "ctor")
+    if kind == "expand":
+        got = s2s(text)
+        print("shorthand_to_stim:", repr(got), "wanted:", repr(r.get("want")))
+        return 0 if got == r.get("want") else 1
+    if kind == "tag":
+        from tsim.core.parse import parse_parametric_tag as ppt
+        try:
+            got = ppt(text)
+        except Exception as e:
+            got = repr(e)
+        print("parse_parametric_tag:", got, "wanted:", r.get("want"))
+        want = r.get("want")
+        return 0 if (isinstance(got, tuple) and got[0] == want[0] and {k: str(v) for k, v in got[1].items()} == want[1]) else 1
+    if kind == "sem":
+        try:
+            tsim.Circuit(text).to_matrix()
+        except Exception as e:
+            print("rejected:", repr(e))
+            return 1
+        return 0
     if kind == "ctor":
         try:
             ref_text, _ = ref_expand(text)
